@@ -1549,6 +1549,7 @@ structure RangeOK (L : List NsHash) (r : NsHash) : Prop where
   maxAll : (∀ x ∈ L, x.minNs = maxNsId) → r.maxNs = maxNsId
   maxNotAll : (∃ x ∈ L, x.minNs ≠ maxNsId) → r.maxNs ≠ maxNsId
   maxMem : ∃ x ∈ L, leB r.maxNs x.minNs = true
+  maxMemNon : (∃ x ∈ L, x.minNs ≠ maxNsId) → ∃ x ∈ L, x.minNs ≠ maxNsId ∧ leB r.maxNs x.minNs = true
   minMax : leB r.minNs r.maxNs = true
 
 theorem range_node {H : HashFn} {L : List NsHash} {k : Nat} {l rr r : NsHash} (hk1 : 1 ≤ k) (hklt : k < L.length)
@@ -1586,7 +1587,8 @@ theorem range_node {H : HashFn} {L : List NsHash} {k : Nat} {l rr r : NsHash} (h
     · have hA : l.minNs = maxNsId := by simpa using cA
       simp only [cA, ↓reduceIte]
       refine ⟨hminLe, ⟨xl, (hmemL xl).mpr (Or.inl hxl), hxle⟩, ?_, fun _ => rfl,
-        (fun ⟨x, hx, hne'⟩ => absurd (eq_maxNsId_of_le (hleaf x hx).2 (by rw [← hA]; exact hminLe x hx)) hne'), ?_, ?_⟩
+        (fun ⟨x, hx, hne'⟩ => absurd (eq_maxNsId_of_le (hleaf x hx).2 (by rw [← hA]; exact hminLe x hx)) hne'), ?_,
+        (fun ⟨x, hx, hne'⟩ => absurd (eq_maxNsId_of_le (hleaf x hx).2 (by rw [← hA]; exact hminLe x hx)) hne'), ?_⟩
       · intro x hx _; exact leB_maxNsId NS_SIZE _ (hleaf x hx).2
       · exact ⟨xl, (hmemL xl).mpr (Or.inl hxl), by rw [← hxle, hA]; exact leB_refl _⟩
       · rw [hA]; exact leB_refl _
@@ -1601,7 +1603,10 @@ theorem range_node {H : HashFn} {L : List NsHash} {k : Nat} {l rr r : NsHash} (h
           (fun ⟨x, hx, hne'⟩ => by
             rcases (hmemL x).mp hx with h | h
             · exact RL.maxNotAll ⟨x, h, hne'⟩
-            · exact absurd (hdropMax hB x h) hne'), ?_, RL.minMax⟩
+            · exact absurd (hdropMax hB x h) hne'), ?_,
+          (fun _ => by
+            obtain ⟨y, hy, hyn, hyl⟩ := RL.maxMemNon ⟨xl, hxl, by rw [← hxle]; exact hA⟩
+            exact ⟨y, (hmemL y).mpr (Or.inl hy), hyn, hyl⟩), RL.minMax⟩
         · intro x hx hne'
           rcases (hmemL x).mp hx with h | h
           · exact RL.maxGe x h hne'
@@ -1613,7 +1618,13 @@ theorem range_node {H : HashFn} {L : List NsHash} {k : Nat} {l rr r : NsHash} (h
           (fun _ => by
             rcases maxB_cases l.maxNs rr.maxNs with h | h
             · rw [h]; exact RL.maxNotAll ⟨xl, hxl, by rw [← hxle]; exact hA⟩
-            · rw [h]; exact RR.maxNotAll ⟨xr, hxr, by rw [← hxre]; simpa using cB⟩), ?_, ?_⟩
+            · rw [h]; exact RR.maxNotAll ⟨xr, hxr, by rw [← hxre]; simpa using cB⟩), ?_,
+          (fun _ => by
+            rcases maxB_cases l.maxNs rr.maxNs with h | h
+            · obtain ⟨y, hy, hyn, hyl⟩ := RL.maxMemNon ⟨xl, hxl, by rw [← hxle]; exact hA⟩
+              exact ⟨y, (hmemL y).mpr (Or.inl hy), hyn, by rw [h]; exact hyl⟩
+            · obtain ⟨y, hy, hyn, hyl⟩ := RR.maxMemNon ⟨xr, hxr, by rw [← hxre]; simpa using cB⟩
+              exact ⟨y, (hmemL y).mpr (Or.inr hy), hyn, by rw [h]; exact hyl⟩), ?_⟩
         · intro x hx hne'
           rcases (hmemL x).mp hx with h | h
           · exact leB_trans (RL.maxGe x h hne') (leB_maxB_left _ _)
@@ -1640,7 +1651,9 @@ theorem computeRootAux_range {H : HashFn} : ∀ (fuel : Nat) {L : List NsHash} {
       obtain ⟨h1, h2⟩ := hleaf x (by simp)
       refine ⟨?_, ⟨x, by simp, rfl⟩, ?_, ?_,
         (fun ⟨y, hy, hne'⟩ => by simp at hy; subst hy; rw [← h1]; exact hne'),
-        ⟨x, by simp, by rw [← h1]; exact leB_refl _⟩, by rw [← h1]; exact leB_refl _⟩
+        ⟨x, by simp, by rw [← h1]; exact leB_refl _⟩,
+        (fun ⟨y, hy, hne'⟩ => by simp at hy; subst hy; exact ⟨y, by simp, hne', by rw [← h1]; exact leB_refl _⟩),
+        by rw [← h1]; exact leB_refl _⟩
       · intro y hy; simp at hy; subst hy; exact leB_refl _
       · intro y hy _; simp at hy; subst hy; rw [← h1]; exact leB_refl _
       · intro h; rw [← h1]; exact h x (by simp)
